@@ -380,13 +380,13 @@ type Fn struct {
 	name string
 	g    *Graph
 
-	defCache   map[*ast.Ident]ast.Expr
+	defCache      map[*ast.Ident]ast.Expr
 	structEscapes map[*types.Var]bool
 	subst         map[types.Object]ast.Expr // substitution in force during expand (memoValue)
-	litAssigns map[types.Object]bool
-	matchDepth int
-	nAssign    map[types.Object]int
-	searching  int // >0 while a node-by-node search runs (see matchRoot)
+	litAssigns    map[types.Object]bool
+	matchDepth    int
+	nAssign       map[types.Object]int
+	searching     int // >0 while a node-by-node search runs (see matchRoot)
 }
 
 // Name is the type-qualified name, e.g. "internal/allocator.(*Allocator).Assign".
